@@ -39,6 +39,10 @@ def _fh(s):
     return float("inf") if s == "inf" else float.fromhex(s)
 
 
+def _fhs(s):
+    return float("inf") if s == "inf" else float("-inf") if s == "-inf" else float.fromhex(s)
+
+
 def _run(cmd, env, timeout=1500):
     return subprocess.run(cmd, stdout=subprocess.PIPE, stderr=subprocess.PIPE, text=True, env=env, timeout=timeout)
 
@@ -69,13 +73,7 @@ def corr(seed, tier):
         hh = vlib.file_hash(glob.glob(f"{VERIF}/harness/*.hpp") + [src])
         out = os.path.join(BUILD, "bin", f"{n}-{rh}-{hh}")
         outs[n] = out
-        # C14_REPARAM_LP_NONNEG=1: the tree has notes/C14-reparam-lp-nonneg.patch applied (the harness re-derives the
-        # backward pass of reparameterize_spline and must then build the same LP)
-        extra = ["-DC14_REPARAM_LP_NONNEG"] if os.environ.get("C14_REPARAM_LP_NONNEG") == "1" else []
-        if extra:
-            out += "-lpnn"
-            outs[n] = out
-        jobs.append((src, out, ["-O1", f"-I{VERIF}/harness"] + extra))
+        jobs.append((src, out, ["-O1", f"-I{VERIF}/harness"]))
     fails = vlib.build_cxx(jobs)
     for out, log in fails.items():
         problems.append({"kind": "harness-build-failed", "harness": os.path.basename(out), "log": log[-3000:]})
@@ -257,12 +255,21 @@ WORD = {"LSL": 0, "LSR": 1, "RSL": 2, "RSR": 3, "RLR": 4, "LRL": 5}
 
 
 def _cmp_misc(path, model_out, failures, problems, stats, strata):
-    impl_d, impl_r, impl_b = {}, {}, {}
+    impl_d, impl_r, impl_b, impl_lp = {}, {}, {}, {}
     for l in open(path):
         t = l.split()
         if not t:
             continue
-        if t[0] == "DUBIMPL":
+        if t[0] == "LPR":
+            # ... ROWS n [c0 c1 b]*n OBJ cx cy SOL status x y : the rows the library handed to lp2d::solve (observed)
+            k = t.index("ROWS")
+            n = int(t[k + 1])
+            vals = [_fhs(v) for v in t[k + 2:k + 2 + 3 * n]]
+            o = t.index("OBJ")
+            impl_lp[(int(t[1]), int(t[2]))] = dict(rows=[tuple(vals[3 * j:3 * j + 3]) for j in range(n)], ynext=t[4], dof=int(t[5]),
+                                                   obj=(float.fromhex(t[o + 1]), float.fromhex(t[o + 2])), status=int(t[o + 4]),
+                                                   sol=(float.fromhex(t[o + 5]), float.fromhex(t[o + 6])))
+        elif t[0] == "DUBIMPL":
             impl_d[int(t[1])] = ("".join(t[2::2]), [float.fromhex(v) for v in t[3::2]])
         elif t[0] == "REPIMPL":
             n = int(t[2])
@@ -270,14 +277,49 @@ def _cmp_misc(path, model_out, failures, problems, stats, strata):
             impl_r[int(t[1])] = ([tuple(float.fromhex(v) for v in vals[4 * k:4 * k + 4]) for k in range(n)], float.fromhex(t[-1]))
         elif t[0] == "BSPIMPL":
             impl_b[int(t[1])] = (int(t[2]), float.fromhex(t[3]), float.fromhex(t[4]))
-    nd = ties = nr = nb = 0
-    worst_rep = 0.0
+    nd = ties = nr = nb = nlp = nlp_skip = 0
+    worst_rep = worst_lp = 0.0
     numpts_diff = 0
+    lp_seen = set()
+    lp_status = {0: 0, 1: 0, 2: 0}
     for l in model_out.splitlines():
         t = l.split()
         if not t:
             continue
-        if t[0] == "DUB":
+        if t[0] == "LPR":
+            key = (int(t[1]), int(t[2]))
+            lp_seen.add(key)
+            im = impl_lp.get(key)
+            if im is None:
+                problems.append({"kind": "correspondence-mismatch", "what": "model LPR line without harness line", "case": key[0], "grid_point": key[1]})
+                continue
+            lp_status[im["status"]] += 1
+            if im["obj"] != (-1.0, 0.0):      # :110  lp2d::solve(-1, 0, ineq): maximise y
+                failures.append(dict(check="reparam_lp_rows_mismatch", case=key[0], grid_point=key[1], what="objective", impl=list(im["obj"]), model=[-1.0, 0.0]))
+            if t[3] == "skip":
+                nlp_skip += 1      # v2max(i+1) was left unassigned by the library (PrimaryInfeasible at i+1): no model input
+                continue
+            nlp += 1
+            n = int(t[3])
+            mrows = [tuple(_fhs(v) for v in t[4 + 3 * j:7 + 3 * j]) for j in range(n)]
+            irows = im["rows"]
+            bad = None
+            if len(mrows) != len(irows):
+                bad = dict(what="row count", model=len(mrows), impl=len(irows))
+            else:
+                for j, (a, b) in enumerate(zip(mrows, irows)):
+                    for c in range(3):
+                        x, y = a[c], b[c]
+                        if x == y:
+                            continue
+                        # products vel*vel, vmax*vmax are rounded once in binary64 and exact in the model: a few ulp
+                        e = abs(x - y) / max(abs(x), abs(y)) if math.isfinite(x) and math.isfinite(y) else float("inf")
+                        worst_lp = max(worst_lp, e)
+                        if not (e <= 1e-14) and bad is None:
+                            bad = dict(what="row entry", row=j, column=c, model=x, impl=y)
+            if bad:
+                failures.append(dict(check="reparam_lp_rows_mismatch", case=key[0], grid_point=key[1], rows_model=len(mrows), rows_impl=len(irows), **bad))
+        elif t[0] == "DUB":
             c = int(t[1])
             nd += 1
             if t[2] == "none":
@@ -337,8 +379,20 @@ def _cmp_misc(path, model_out, failures, problems, stats, strata):
                     failures.append(dict(check="bspline_model_mismatch", case=c, model_num_pts=np_, impl_num_pts=inp))
             elif abs(tmax - itmax) > 1e-12 * (1 + abs(tmax)) or tmin != itmin:
                 failures.append(dict(check="bspline_model_mismatch", case=c, model=[tmin, tmax], impl=[itmin, itmax]))
+    # keep the evidence / replay files small: the first few row mismatches carry the information, the total goes to stats
+    lpm = [f for f in failures if f.get("check") == "reparam_lp_rows_mismatch"]
+    for f in lpm[6:]:
+        failures.remove(f)
+    if lpm:
+        lpm[0]["mismatching_calls_total"] = len(lpm)
+    missing_lp = set(impl_lp) - lp_seen
+    if missing_lp:
+        problems.append({"kind": "correspondence-mismatch", "what": "model driver produced no LPR line for observed lp2d calls", "calls": sorted(missing_lp)[:10]})
     stats["model_correspondence"] = dict(dubins_cases=nd, dubins_near_ties=ties, reparam_cases=nr, reparam_max_rel_diff=worst_rep,
-                                         bspline_cases=nb, bspline_numpts_rounding_differences=numpts_diff)
+                                         bspline_cases=nb, bspline_numpts_rounding_differences=numpts_diff,
+                                         lp_calls_compared=nlp, lp_calls_without_model_input=nlp_skip, lp_calls_mismatching=len(lpm), lp_rows_max_rel_diff=worst_lp,
+                                         lp_status_counts=dict(optimal=lp_status[0], primary_infeasible=lp_status[1], dual_infeasible=lp_status[2]))
+    strata["model/reparam_backward_lp_rows"] = nlp
     strata["model/dubins_select"] = nd
     strata["model/reparam_forward"] = nr
     strata["model/bspline_span"] = nb
@@ -346,12 +400,13 @@ def _cmp_misc(path, model_out, failures, problems, stats, strata):
 
 TB = [
     "Coq 8.16.1 kernel incl. vm_compute; full .vo build",
-    "Model/C14_Fit1d.v: hand transcription of fit_spline_1d's assembly of A, b, the cost blocks and the KKT system (fit_impl.hpp:61-243) and of the basis recursions (basis.hpp); tied to the code by (i) Gen/BasisC14.v regenerated from the library's constexpr basis code every run and compared entry-wise in Coq, (ii) the constraint residual of the real coefficient vectors under the model's rows, (iii) an independent finite-difference oracle of the same constraints (model rows = oracle rows to 1e-9)",
-    "Eigen::SparseLU / SimplicialLDLT: modelled as arguments of the model function with the contract 'returns a solution of the system' as theorem premise; checked at run time (this is what the known finding C14-minderivative-kkt violates)",
-    "Model/C14_Dubins.v (word selection), Model/C14_Reparam.v (forward pass; std::sqrt is a parameter with non-negativity + exactness on the radicands of the run as premises), Model/C14_Misc.v (fix-up over an abstract group, fit_bspline point count): hand transcriptions, tied by extraction (ExtrOcamlBasic only) and comparison with the real code on the same inputs",
+    "Model/C14_Fit1d.v: hand transcription of fit_spline_1d's assembly of A, b, the cost blocks and the full KKT matrix [Q A^T; A 0] (fit_impl.hpp:61-223; both off-diagonal blocks are written explicitly since 7781770) and of the basis recursions (basis.hpp); tied to the code by (i) Gen/BasisC14.v regenerated from the library's constexpr basis code every run and compared entry-wise in Coq, (ii) the constraint residual of the real coefficient vectors under the model's rows, (iii) an independent finite-difference oracle of the same constraints (model rows = oracle rows to 1e-9)",
+    "Eigen::SparseLU (the one solver of both branches): modelled as an argument of the model function with the contract 'returns a solution of the system' as theorem premise; checked at run time through the residual of the returned coefficients (1e-6 relative)",
+    "Model/C14_Dubins.v (word selection), Model/C14_Reparam.v (forward pass; std::sqrt is a parameter with non-negativity + exactness on the radicands of the run as premises; rows of the backward LP incl. row [4] of 80e48c1), Model/C14_Misc.v (fix-up over an abstract group, fit_bspline point count K+1+istar(t1)): hand transcriptions, tied by extraction (ExtrOcamlBasic only) and comparison with the real code on the same inputs; the LP rows are compared with the rows the library itself passes to lp2d::solve (observed by redirecting the token lp2d to a recording wrapper while reparameterize.hpp is compiled - harness/h_c14_misc.cpp)",
+    "lp2d::solve (external code): not modelled; its contract 'Optimal => the returned point satisfies the rows' is the premise of reparam_lp_row4_radicand_nonneg and is checked at run time on the library's own rows (violated: known finding C14-lp2d-infeasible-optimum)",
     "extract/C14/driver.ml: exact conversion binary64 -> Q; residual dot products and printed results in binary64; reparameterisation state rounded to binary64 between steps; sqrt argument of the model = binary64 sqrt",
     "harness/h_c14_*.cpp + scripts/props_C14.py: generators, long-double finite-difference oracle (fit_spline_1d constraints), closed-form Dubins word-length oracle, group-product oracle for interpolation / velocity continuity, comparators",
-    "Dubins feasibility geometry (tangent circles: each word, when declared feasible, reaches the target) and lp2d::solve are NOT modelled: checked numerically only (end pose, length vs oracle; lp2d optimal => feasible)",
+    "Dubins feasibility geometry (tangent circles: each word, when declared feasible, reaches the target) is NOT modelled: checked numerically only (end pose, length vs oracle)",
 ]
 
 CFG = dict(
@@ -363,15 +418,17 @@ CFG = dict(
     coq_timeout=1500,
     trusted_base=TB,
     assumptions=[
-        "floating-point rounding and the accuracy of the sparse solvers are not modelled: the exact-Q model satisfies every constraint, the implementation is compared against it (1e-6 relative) on stratified inputs",
+        "floating-point rounding and the accuracy of the sparse solver are not modelled: the exact-Q model satisfies every constraint, the implementation is compared against it (1e-6 relative) on stratified inputs",
         "fit1d_rows_meaning is proved for every N and the specs PiecewiseLinear, FixedDerCubic<1|2,1|2>, MinDerivative<5|6,3,3> (basis lemma per degree; the row-structure theorem is generic in the degree)",
         "reparam_* theorems: ds <= 1, start_vel^2 >= 1e-8, v2max(0) >= 1e-8, sqrt exact on the radicands of the run; the corners outside (proved *_refuted examples) are listed in notes/C14.md",
+        "reparam_lp_row4_radicand_nonneg (no negative radicand in the forward pass) assumes lp2d's contract at the grid point concerned; reparam_clamp_gap_partial bounds the remaining gap by eps/(2|a|) only",
+        "fit_bspline: num_pts theorems are over exact rationals (there the repaired and the old formula coincide, num_pts_eq_old); the binary64 index arithmetic is checked on the library's own NumPts/istar expressions (6000 / 40000 cases on spans that are multiples of dt)",
     ],
 )
 
 TEXT = dict(
-    technique="Coq proofs about executable Gallina models (exact-Q constraint system of fit_spline_1d, abstract-group interpolation fix-up, Dubins word selection, reparameterisation forward pass, B-spline point count) + extraction-based correspondence against the real code + independent numeric oracles",
-    text="Theorems (Coq 8.16, for all inputs of the models): A x = b of fit_spline_1d means exactly p_i(0)=0, p_i(dt_i)=dx_i, scaled derivative continuity up to InnCnt and the boundary derivatives (every N; PiecewiseLinear, FixedDerCubic<1|2>, MinDerivative<5|6>); row/column counts; every solution of the KKT system satisfies the constraints; the log fix-up of fit_spline makes every segment end at the next data point in any group and leaves first/last control velocities untouched; the Dubins description returned is the first minimiser among the six candidate words, angles in [0,2pi), straight length >= 0; reparameterisation segments are monotone, start on the grid, start speed <= requested (with explicit hypotheses, and proved counterexamples without them); fit_bspline's control-point count covers the data span. The real code is run against the models and against independent oracles on stratified inputs (sampling intervals 1e-2..1e2, ratios up to 1e3/10, SO3/SE2/SE3/R^n data, pose/radius grid incl. the d=2R/4R boundaries).",
-    note="Solver accuracy, Dubins feasibility geometry and lp2d are correspondence-only. Known findings on the unchanged tree: MinDerivative KKT system (LDLT without pivoting) violates its constraints for sub-second intervals; dubins at exact circle tangency returns a non-minimal word (2*pi wrap); reparameterisation leaves a gap in s after an eps-clamped deceleration; lp2d returns infeasible 'optimal' points for rows with ~1e-16 coefficients; fit_bspline's NumPts can be one short when the span is a multiple of dt; dubins_curve<K!=3> inherits ConstantVelocity's T/3 (C12). Patches in notes/C14-*.patch.",
+    technique="Coq proofs about executable Gallina models (exact-Q constraint system and KKT matrix of fit_spline_1d, abstract-group interpolation fix-up, Dubins word selection, reparameterisation backward-LP rows and forward pass, B-spline point count) + extraction-based correspondence against the real code + independent numeric oracles",
+    text="Theorems (Coq 8.16, for all inputs of the models): A x = b of fit_spline_1d means exactly p_i(0)=0, p_i(dt_i)=dx_i, scaled derivative continuity up to InnCnt and the boundary derivatives (every N; PiecewiseLinear, FixedDerCubic<1|2>, MinDerivative<5|6>); row/column counts; the KKT matrix has A and A^T in its off-diagonal blocks and every solution of the KKT system satisfies the constraints; the log fix-up of fit_spline makes every segment end at the next data point in any group and leaves first/last control velocities untouched; the Dubins description returned is the first minimiser among the six candidate words, angles in [0,2pi), straight length >= 0; reparameterisation segments are monotone, start on the grid, start speed <= requested (with explicit hypotheses, and proved counterexamples without them); with row [4] of the backward LP every LP-feasible state keeps the forward radicand non-negative (and without it not); fit_bspline's control-point count K+1+istar(t1) covers the data span and the index of every data time. The real code is run against the models and against independent oracles on stratified inputs (sampling intervals 1e-2..1e2, ratios up to 1e3/10, SO3/SE2/SE3/R^n data, pose/radius grid incl. the d=2R/4R boundaries; every lp2d call of reparameterize_spline observed).",
+    note="Solver accuracy, Dubins feasibility geometry and lp2d are correspondence-only. Fixed since the first round (regression-checked: reverting any one of the commits makes the check fail): MinDerivative KKT system (7781770), reparameterisation gap after an eps-clamped deceleration (80e48c1), fit_bspline NumPts one short (435fdfb), dubins_curve<K!=3> (8514426). Still known: dubins at exact circle tangency returns a non-minimal word (2*pi wrap); lp2d returns infeasible 'optimal' points - which also re-opens the reparameterisation gap at the grid points concerned.",
     design_ref="DESIGN.md section 5 C14; notes/C14.md",
 )
